@@ -678,7 +678,11 @@ class LiteralUnmarshaller(AbstractUnmarshaller[LiteralT], tp.Generic[LiteralT]):
     def __call__(self, val: tp.Any) -> LiteralT:
         if self._ismember(val):
             return val
-        decoded = serdes.load(val)
+        # Text is the same text in any carrier: check the decoded bytes before loading them.
+        text = serdes.decode(val)
+        if self._ismember(text):
+            return text
+        decoded = serdes.load(text)
         if self._ismember(decoded):
             return decoded  # type: ignore[return-value]
 
